@@ -136,9 +136,13 @@ func (s *symFn) isIndexPhi(phi *ssa.Phi) (coll ssa.Value, ok bool) {
 	if loop == nil {
 		return nil, false
 	}
-	// t1 = phi [-1, t2]; t2 = t1 + 1
+	// t1 = phi [-1, t2]; t2 = t1 + 1   (range loop)   or   i = phi [0, i+1]   (counted loop from the first element)
 	for i, e := range phi.Edges {
 		if !loop[phi.Block().Preds[i]] {
+			// entry edge: the iteration must start at the first element, otherwise the loop covers only a suffix of the collection
+			if k, isC := constInt(e); !isC || (k != -1 && k != 0) {
+				return nil, false
+			}
 			continue
 		}
 		bo, isBin := e.(*ssa.BinOp)
@@ -167,6 +171,18 @@ func (s *symFn) elemFor(collection ssa.Value, idx ssa.Value) *Sym {
 		return nil
 	}
 	if _, ok := s.isIndexPhi(phi); !ok {
+		return nil
+	}
+	// the index expression and the start value must agree: phi+1 with start -1 (range), phi with start 0 (counted)
+	start := int64(-2)
+	for i, e := range phi.Edges {
+		if !s.headers[phi.Block()][phi.Block().Preds[i]] {
+			if k, isC := constInt(e); isC {
+				start = k
+			}
+		}
+	}
+	if _, direct := idx.(*ssa.Phi); (direct && start != 0) || (!direct && start != -1) {
 		return nil
 	}
 	name := s.binderName(phi.Block())
@@ -513,6 +529,37 @@ func (s *symFn) allocValue(al *ssa.Alloc) *Sym {
 	}
 	if n == 1 {
 		return stored
+	}
+	if n == 0 {
+		// never assigned directly, but its address is handed to exactly one library call that fills it (json.Unmarshal(data, &x) …):
+		// the value is whatever that call produced — an opaque term named after the callee
+		var filler *ssa.Call
+		fillers := 0
+		for _, ref := range *al.Referrers() {
+			var user ssa.Instruction = ref
+			if mi, ok := ref.(*ssa.MakeInterface); ok && mi.Referrers() != nil && len(*mi.Referrers()) == 1 {
+				user = (*mi.Referrers())[0]
+			}
+			if c, ok := user.(*ssa.Call); ok {
+				if callee := c.Call.StaticCallee(); callee != nil && !s.p.Own[calleePkg(callee)] {
+					filler = c
+					fillers++
+				}
+			}
+		}
+		if fillers == 1 {
+			var kids []*Sym
+			for _, a := range filler.Call.Args {
+				if mi, ok := a.(*ssa.MakeInterface); ok && mi.X == ssa.Value(al) {
+					continue
+				}
+				if a == ssa.Value(al) {
+					continue
+				}
+				kids = append(kids, s.val(a))
+			}
+			return &Sym{Op: "call", Name: "outparam:" + fullFuncName(filler.Call.StaticCallee()), Kids: kids, Kind: kindOf(al.Type().Underlying().(*types.Pointer).Elem())}
+		}
 	}
 	return sUnknown("local cell " + al.Name())
 }
@@ -1409,4 +1456,15 @@ func (s *symFn) loopOrdinal(h *ssa.BasicBlock) int {
 
 func isNilSym(x *Sym) bool {
 	return x != nil && (x.Op == "nil" || (x.Op == "const" && x.C == nil))
+}
+
+
+func calleePkg(f *ssa.Function) *types.Package {
+	if f.Pkg != nil {
+		return f.Pkg.Pkg
+	}
+	if f.Object() != nil {
+		return f.Object().Pkg()
+	}
+	return nil
 }
